@@ -507,6 +507,40 @@ fn cli_fault_menu(ctx: &Ctx, acc: &mut Acc) {
     }
 }
 
+fn converter_calendar_ends(ctx: &Ctx, acc: &mut Acc) {
+    use cgt_converter::schwab::{SchwabConverter, SchwabInput};
+    use cgt_converter::BrokerConverter;
+    use chrono::NaiveDate;
+    let mut dates: Vec<NaiveDate> = vec![];
+    for k in 0..=10i64 {
+        for anchor in [NaiveDate::MIN, NaiveDate::MAX, NaiveDate::from_ymd_opt(1, 1, 1).unwrap_or(NaiveDate::MIN), NaiveDate::from_ymd_opt(9999, 12, 31).unwrap_or(NaiveDate::MAX), NaiveDate::from_ymd_opt(0, 1, 1).unwrap_or(NaiveDate::MIN)] {
+            for d in [anchor.checked_add_signed(chrono::Duration::days(k)), anchor.checked_sub_signed(chrono::Duration::days(k))].into_iter().flatten() {
+                if !dates.contains(&d) {
+                    dates.push(d);
+                }
+            }
+        }
+    }
+    let fmt = |d: &NaiveDate| d.format("%m/%d/%Y").to_string();
+    let kinds: [(&str, &str, &str, &str); 5] = [("Buy", "10", "$5", ""), ("Sell", "4", "$6", ""), ("Stock Plan Activity", "10", "", ""), ("Cash Dividend", "", "", "$5.00"), ("NRA Withholding", "", "", "-$0.75")];
+    for d in &dates {
+        for (action, qty, price, amount) in kinds {
+            for date_field in [fmt(d), format!("{} as of {}", fmt(&chrono::NaiveDate::from_ymd_opt(2024, 1, 15).unwrap_or(*d)), fmt(d))] {
+                for awards in [None, Some(serde_json::json!({"Transactions": [{"Date": "01/15/2024", "Action": "Deposit", "Symbol": "X", "TransactionDetails": [{"Details": {"VestDate": "01/15/2024", "VestFairMarketValue": "$9.50"}}]}]}).to_string())] {
+                    let tx = serde_json::json!({"BrokerageTransactions": [{"Date": date_field, "Action": action, "Symbol": "X", "Description": "d", "Quantity": qty, "Price": price, "Fees & Comm": "", "Amount": amount}]}).to_string();
+                    let input = SchwabInput { transactions_json: tx.clone(), awards_json: awards.clone() };
+                    acc.states += 1;
+                    acc.validated += 1;
+                    acc.bump("converter:calendar-ends");
+                    if let Err(p) = std::panic::catch_unwind(std::panic::AssertUnwindSafe(|| SchwabConverter::new().convert(&input))) {
+                        acc.violation(&ctx.findings, "C15", Violation { clause: "panic".into(), input: Input::Json(serde_json::json!({"transactions": serde_json::from_str::<serde_json::Value>(&tx).unwrap_or_default(), "awards": awards})), detail: format!("SchwabConverter::convert panicked: {}", mcx::observe::panic_msg(p)), context: serde_json::json!({"profile": "converter-calendar-ends"}) });
+                    }
+                }
+            }
+        }
+    }
+}
+
 pub fn c15(tier: Tier) -> i32 {
     let mut ctx = Ctx::new("C15", tier, preds::all());
     let mut acc = Acc::new();
@@ -547,6 +581,9 @@ pub fn c15(tier: Tier) -> i32 {
     }
     validator_table(&ctx, &mut acc);
     cli_fault_menu(&ctx, &mut acc);
+    // (f) the converter at the ends of the calendar: every row kind dated within 10 days of the first and last dates
+    // the date type holds, of year 0/1 and of year 9999/10000, with and without an awards file
+    converter_calendar_ends(&ctx, &mut acc);
     // (e) the MCP entry point: malformed JSON ledgers with a multi-byte character at every offset around the error site
     crate::mcp::malformed_json_sweep(&ctx, &mut acc, "C15");
     for k in ["tokens:parse-error", "tokens:report", "magnitudes:report", "magnitudes:calculate-error", "validator:cells", "cli-fault-menu:expected-failures", "cli-fault-menu:expected-successes"] {
@@ -554,7 +591,7 @@ pub fn c15(tier: Tier) -> i32 {
     }
     ctx.bound = json!({"token_sequences_max_len": l_tok, "token_alphabet": TOKENS.len(), "magnitude_ledgers_max_events": l_mag, "magnitude_event_alphabet": nmag});
     ctx.alphabets.push(json!({"tokens": TOKENS, "magnitudes": magnitudes(), "magnitude_events": "BUY/SELL with (quantity, price) over magnitudes^2 and fees over magnitudes; SPLIT/UNSPLIT ratio, CAPRETURN/ACCUMULATION total, DIVIDEND total and tax over magnitudes; event k dated base+k days", "bases": ["2024-01-10", "0001-01-01", "1900-04-04", "2101-04-05", "9999-12-29"]}));
-    ctx.explanation = "(a) every sequence of at most L tokens over a 30-token alphabet (dates, bad dates, every keyword, numbers incl. '1.' '.5' '-1', '@', currencies, '#', LF, CR, space, tab, non-ASCII, NUL, a complete line), joined by single spaces, goes through parse_file -> validate -> calculate -> plain text, JSON and derived getters, each step under catch_unwind, in child processes with a 10 s per-execution watchdog (abort/hang = violation). (b) every ordered ledger of at most k events over the magnitude alphabet {0, 1e-6, 1, 1e6, 1e-28, 1e14, 7.9e28} on every numeric field of every kind, at five calendar positions incl. the ends of the calendar, goes through the same pipeline as Transaction values. (c) CLI fault menu: report x {9 inputs} x {plain,json,pdf} x {stdout, new --output, existing --output, unwritable dir, existing default PDF path} plus parse/convert/--year/--fx-folder cells, one real process per cell: failures exit non-zero, print nothing on stdout, leave output paths byte-identical. (d) validator truth table over every sign pattern of every numeric field of every kind. (e) MCP: 4 kinds of malformed JSON ledger x 3 tools x a multi-byte character at each of 150 offsets before and after the error site, pipelined into real `cgt-tool mcp` sessions: every request must get exactly one error response and the server must live until EOF.".into();
+    ctx.explanation = "(a) every sequence of at most L tokens over a 30-token alphabet (dates, bad dates, every keyword, numbers incl. '1.' '.5' '-1', '@', currencies, '#', LF, CR, space, tab, non-ASCII, NUL, a complete line), joined by single spaces, goes through parse_file -> validate -> calculate -> plain text, JSON and derived getters, each step under catch_unwind, in child processes with a 10 s per-execution watchdog (abort/hang = violation). (b) every ordered ledger of at most k events over the magnitude alphabet {0, 1e-6, 1, 1e6, 1e-28, 1e14, 7.9e28} on every numeric field of every kind, at five calendar positions incl. the ends of the calendar, goes through the same pipeline as Transaction values. (c) CLI fault menu: report x {9 inputs} x {plain,json,pdf} x {stdout, new --output, existing --output, unwritable dir, existing default PDF path} plus parse/convert/--year/--fx-folder cells, one real process per cell: failures exit non-zero, print nothing on stdout, leave output paths byte-identical. (d) validator truth table over every sign pattern of every numeric field of every kind. (f) the Schwab converter on every row kind dated within 10 days of the ends of the date type's range and of years 0/1/9999, plain and 'as of' dates, with and without an awards file: never a panic. (e) MCP: 4 kinds of malformed JSON ledger x 3 tools x a multi-byte character at each of 150 offsets before and after the error site, pipelined into real `cgt-tool mcp` sessions: every request must get exactly one error response and the server must live until EOF.".into();
     ctx.assumptions = vec!["PDF rendering of hostile reports is exercised through the CLI cells only (C17 owns PDF content)".into()];
     ctx.finish(&acc, "model_checking")
 }
